@@ -160,8 +160,40 @@ def recover_only(R, env, prog, sites, RULE):
         R.ob(RULE, "recover:remove-by-own-sequence", good, "packet removed under key %s, expected <element>.sequence of the iteration" % fmt(k)[:160], loc=op["loc"], fn=hk)
         if good:
             elem = k[1]
+    def fold_sum(amt):
+        """amt = P.iter().fold(0, |acc, p| acc + p.amount.amount): returns P, else None"""
+        for s_ in (subterms(amt) if amt is not None else []):
+            if s_[0] == "call" and s_[1].endswith("Iterator::fold") and len(s_[2]) == 3 and s_[2][2][0] == "closure":
+                coll, init, clo = s_[2]
+                res = closure_result(prog, clo, params={2: ("acc",), 3: ("elem",)})
+                zero_ = const_int(init) == 0
+                okb = res is not None and res[0] == "call" and res[1] == "std::ops::Add::add" and {norm(res[2][0]), norm(res[2][1])} == {norm(("acc",)), norm(("field", ("field", ("elem",), "amount"), "amount"))}
+                if zero_ and okb:
+                    return coll
+        return None
+
     for t in trs:
         amt = t["amount"]
+        fcoll = fold_sum(amt)
+        if fcoll is not None and elem is not None and not [s for s in subterms(amt) if s[0] == "mut" and s[2].endswith("AddAssign::add_assign")]:
+            # fold spelling: the sum runs over the same collection the removal loop iterates, and the
+            # removal is executed in every iteration of its loop
+            same_coll = elem[1][0] == "call" and elem[1][1].endswith("Iterator::next") and norm(elem[1][2][0]) == norm(fcoll)
+            R.ob(RULE, "recover:sum-of-removed", same_coll, "the total is folded over %s but the packets removed are those of %s" % (fmt(fcoll)[:80], fmt(elem)[:80]), loc=t["loc"], fn=hk)
+            R.ob(RULE, "recover:sum-starts-at-zero", True, "fold starts at 0", loc=t["loc"], fn=hk)
+            R.ob(RULE, "recover:resend-on-every-success-path", must_pass(h, t["root_bb"]) and shared.response_contains_call_at(h, t["root_bb"]), "recover can succeed without re-sending", loc=t["loc"], fn=hk)
+            R.ob(RULE, "recover:receiver", recover_receiver_ok(prog, t["receiver"]), "re-send goes to %s, expected validated receiver or the configured staker" % fmt(t["receiver"] or ("none",))[:160], loc=t["loc"], fn=hk)
+            for op in rms:
+                heads = [bi for bi, t_, args in call_sites(h, lambda nm: nm == "std::iter::Iterator::next") if norm(h.T.call_term(t_, bi)) == norm(elem[1])]
+                every = False
+                if len(heads) == 1:
+                    r_ = set()
+                    for s_ in h.body.succs()[heads[0]]:
+                        r_ |= h.body.reachable(h.removed, removed_blocks=frozenset([op["root_bb"]]), start=s_)
+                    every = heads[0] not in r_
+                R.ob(RULE, "recover:remove-and-add-paired", every, "a packet that is summed is not removed in every iteration of the removal loop", loc=op["loc"], fn=hk)
+            R.clear_undecided([RULE])
+            return
         # amount = total.amount, a loop-carried sum: every += operand must be <same element>.amount.amount
         adds = [s for s in subterms(amt) if s[0] == "mut" and s[2].endswith("AddAssign::add_assign")] if amt is not None else []
         good = bool(adds) and elem is not None and all(a[3][0] == ("field", ("field", elem, "amount"), "amount") for a in adds)
